@@ -35,6 +35,9 @@ func init() {
 		for _, f := range []string{"value_float", "none", "two", "sparse_value", "value_string", "value_strings", "unknown_attribute", "value_int"} {
 			p.Jobs = append(p.Jobs, Job{Harness: "opset13.H_C11_constant", Case: map[string]interface{}{"form": f, "n": 1}})
 		}
+		for _, dt := range []string{"short", "raw5", "float16", "string"} {
+			p.Jobs = append(p.Jobs, Job{Harness: "opset13.H_C11_constant", Case: map[string]interface{}{"form": "value_undecodable", "n": 1, "dtype": dt}})
+		}
 		for _, dt := range []string{"uint32", "uint64", "float64", "int32", "int16", "int8", "uint16", "uint8"} {
 			p.Jobs = append(p.Jobs, Job{Harness: "opset13.H_C11_constant", Case: map[string]interface{}{"form": "value_typed", "n": 2, "dtype": dt}})
 		}
